@@ -254,6 +254,45 @@ def fan_pda(rng):
     return {'Q': Q, 'Sigma': list(sigma), 'Gamma': ['x'], 'delta': delta, 'q0': 'q0', 'F': F, 'eps': eps}
 
 
+# state / variable names chosen so that naive string handling goes wrong: names that are substrings or prefixes of each other,
+# the empty name (legal for the class constructors), separators inside names, lexicographic vs numeric order, coinciding concatenations
+NAME_POOLS = [
+    ['q1', 'q10', 'q11', 'q100', 'q0', 'q01'],
+    ['a', 'a_b', 'b_c', 'c', 'a_b_c', 'b'],
+    ['q9', 'q10', 'q8', 'q11', 'q7', 'q100'],
+    ['N', 'NP', 'P', 'PP', 'NPP', 'S'],
+    ['x', 'x1', '1x', '11', '1', 'x11'],
+    ['', 'p', 'pp', 'q', 'qp', 'pq'],
+]
+
+
+def tricky_names(rng, n, allow_empty=False):
+    pool = rng.choice(NAME_POOLS if allow_empty else NAME_POOLS[:-1])
+    names = rng.sample(pool, min(n, len(pool)))
+    return names + ['z%d' % i for i in range(n - len(names))]
+
+
+def chain_nfa(rng, k=None, sigma='ab', eps='_'):
+    """epsilon chain p00 -> p01 -> ... of k states (subset labels longer than 64 characters that share long prefixes) plus a few other states"""
+    k = k or rng.randint(16, 19)
+    chain = ['p%02d' % i for i in range(k)]
+    extra = ['y', 'z', 'w'][:rng.randint(2, 3)]
+    Q = chain + extra
+    d = {}
+    for i in range(k - 1):
+        d.setdefault((chain[i], eps), set()).add(chain[i + 1])
+    for x in extra:
+        for a in sigma:
+            if rng.random() < 0.6:
+                d.setdefault((x, a), set()).add(rng.choice(extra + [chain[0]]))
+    for a in sigma:
+        d.setdefault((chain[-1], a), set()).add(rng.choice(extra))
+        if rng.random() < 0.5:
+            d.setdefault((rng.choice(chain), a), set()).add(rng.choice(extra))
+    F = [x for x in extra if rng.random() < 0.5] or [extra[-1]]
+    return {'Q': Q, 'Sigma': list(sigma), 'delta': sorted([q, a, sorted(t)] for (q, a), t in d.items()), 'q0': chain[0], 'F': F, 'eps': eps}
+
+
 def relabel_re(t, codes):
     """rename the symbols 0..k-1 of a regexp tree to the given codes"""
     if t[0] == 's':
